@@ -77,3 +77,19 @@ Print Assumptions C15_plain_no_sgr.
 Print Assumptions C15_build.
 Print Assumptions C15_build_ex.
 Print Assumptions C15_colour_unread.
+
+(* NON-VACUITY (Proofs/NonVacuity.v, worlds W6 and W6p): C15_build applied to ["ab","ac"] in
+   verbose mode with and without syntax highlighting, with the regex crate's real digit table:
+   stripping the SGR sequences of the highlighted output gives the plain output. *)
+From Grex Require Proofs.NonVacuity.
+Theorem C15_nonvacuous : exists e s1 s2,
+  NonVacuity.world_ok NonVacuity.c_W6 NonVacuity.db_W6 SCPass1 NonVacuity.ws_W6 true e s1
+  /\ NonVacuity.world_ok NonVacuity.c_W6p NonVacuity.db_W6p SCPass1 NonVacuity.ws_W6p true e s2
+  /\ s1 <> s2 /\ strip_sgr (mem engine_d) s1 = s2.
+Proof.
+  pose proof NonVacuity.W6 as W. pose proof NonVacuity.W6p as W'. do 3 eexists.
+  split; [exact W|]. split; [exact W'|]. split; [discriminate|].
+  exact (C15_build (mem engine_d) NonVacuity.c_W6p NonVacuity.db_W6 SCPass1 NonVacuity.ws_W6 _ _ C15_digit_ok
+           (NonVacuity.w_build _ _ _ _ _ _ _ W) (NonVacuity.w_build _ _ _ _ _ _ _ W')).
+Qed.
+Print Assumptions C15_nonvacuous.
